@@ -11,13 +11,13 @@ open Dns Dns.C01
 /-- the types whose unpack body lies inside the algebra -/
 def coveredTypes : List String := (Gen.unpackCodecs.filter (fun p => GoodPlan p.2)).map (·.1)
 
-/-- 70 of the 81 generated bodies are covered; the others use SVCB / OPT / APL / NSEC bitmap / gateway / name-list
+/-- 74 of the 81 generated bodies are covered; the others use SVCB / OPT / APL / gateway / name-list
     primitives (checked by the wire-level generator on the implementation) -/
 theorem covered_types :
-    coveredTypes = ["A", "AAAA", "AFSDB", "ANY", "AVC", "CAA", "CDNSKEY", "CDS", "CERT", "CNAME", "DHCID", "DLV", "DNAME",
+    coveredTypes = ["A", "AAAA", "AFSDB", "ANY", "AVC", "CAA", "CDNSKEY", "CDS", "CERT", "CNAME", "CSYNC", "DHCID", "DLV", "DNAME",
       "DNSKEY", "DS", "EID", "EUI48", "EUI64", "GID", "GPOS", "HINFO", "ISDN", "KEY", "KX", "L32", "L64", "LOC", "LP", "MB",
-      "MD", "MF", "MG", "MINFO", "MR", "MX", "NAPTR", "NID", "NIMLOC", "NINFO", "NS", "NSAPPTR", "NSEC3PARAM", "NULL",
-      "NXNAME", "OPENPGPKEY", "PTR", "PX", "RESINFO", "RFC3597", "RKEY", "RP", "RRSIG", "RT", "SIG", "SMIMEA", "SOA", "SPF",
+      "MD", "MF", "MG", "MINFO", "MR", "MX", "NAPTR", "NID", "NIMLOC", "NINFO", "NS", "NSAPPTR", "NSEC", "NSEC3", "NSEC3PARAM", "NULL",
+      "NXNAME", "NXT", "OPENPGPKEY", "PTR", "PX", "RESINFO", "RFC3597", "RKEY", "RP", "RRSIG", "RT", "SIG", "SMIMEA", "SOA", "SPF",
       "SRV", "SSHFP", "TA", "TALINK", "TKEY", "TLSA", "TSIG", "TXT", "UID", "UINFO", "URI", "X25", "ZONEMD"] := by
   decide
 
